@@ -925,6 +925,11 @@ func c17VirtualLongNames(u *vfUnit) {
 					v.sys = &cp
 				}
 			}
+			if (i/3)%4 == 3 {
+				// an entry passed on from another SFTP server: Sys() is this package's own *FileStat (what Client.ReadDir
+				// returns), the ids are the same in both sources
+				v.sys = &FileStat{Size: uint64(v.size), UID: v.uid, GID: v.gid, Mtime: uint32(v.mtime.Unix())}
+			}
 			l = append(l, c17VOwned{v})
 			owned[v.name] = true
 		default: // no owner information at all
